@@ -22,6 +22,7 @@ RULE = (
     "raise SigmaTypeError. Non-trivial = prefix length not a multiple of 8 (v4) / 4 (v6), or a zero "
     "group adjacent to the cut (v6), or an invalid string."
 )
+RULE += (" " + 'Networks are also written in other valid spellings (IPv4 dotted netmask, /32 without prefix; IPv6 upper case, exploded, uncompressed, dotted-quad tail).')
 ASSUMPTIONS = [
     "python's ipaddress module defines network membership and the canonical compressed IPv6 text",
     "patterns are globs with '*' (any run) and '?' (one character) over the address text",
